@@ -451,7 +451,7 @@ def oracle(F, expect):
                     bad_shape = bad_shape or (ci, t)
                     continue
                 c, l = t
-                if type(c) is not int or c <= 0:
+                if type(c) is not int or c < 0:
                     bad_coeff = bad_coeff or (ci, t)
                 if type(l) is not int:
                     bad_type = bad_type or (ci, l)
@@ -466,7 +466,7 @@ def oracle(F, expect):
         out.append(('literal-range', 'clause %d has literal %r outside 1..%d (%d bad literals)'
                     % (bad_range[0], bad_range[1], n, nbad)))
     if bad_coeff:
-        out.append(('coefficient', 'constraint %d has term %r: coefficient is not a positive int'
+        out.append(('coefficient', 'constraint %d has term %r: coefficient is not a non-negative int'
                     % bad_coeff))
     if bad_shape:
         out.append(('constraint-shape', 'constraint %d is malformed: %r' % bad_shape))
@@ -478,7 +478,12 @@ def oracle(F, expect):
         out.append(('labels:exception:' + type(e).__name__, 'all_variable_labels() raised %r' % (e,)))
     try:
         ok = F.debug(allow_opposite=True, allow_repetition=True)
-        if ok is not True and not (bad_type or bad_range or bad_coeff or bad_shape):
+        zero_coeff = kind != 'CNF' and any(t[0] == 0 for con in F.constraints() for t in con[:-2]
+                                           if isinstance(t, tuple) and len(t) == 2)
+        # (a term with coefficient 0 is accepted by add_constraint, stored and
+        # printed, while debug() calls it malformed: cnfgen disagrees with itself
+        # there, but nothing C10 states is involved)
+        if ok is not True and not (bad_type or bad_range or bad_coeff or bad_shape or zero_coeff):
             out.append(('debug-false', 'debug(allow_opposite=True, allow_repetition=True) returned %r' % (ok,)))
     except Exception as e:
         if not (bad_type or bad_shape):
@@ -1346,8 +1351,66 @@ def _force_last(F, nv):
     F.force_functional_mapping(g)
 
 
-# name -> (action(F, nv), declared count afterwards(nv), needs)
+class BatchProblem(Exception):
+    pass
+
+
+def _lazy_batch(F, nv):
+    """add_clauses_from over a lazy iterable that creates a variable of the
+    same formula between two clauses: the variable must be fresh with respect
+    to the clauses of the batch already handed over."""
+    got = []
+
+    def gen():
+        yield [nv + 1, -(nv + 2)]
+        got.append(F.new_variable())
+        yield [got[0], -(nv + 1)]
+    F.add_clauses_from(gen())
+    if got != [nv + 3]:
+        raise BatchProblem('a clause of the batch already mentions %d and %d, the variable created by the '
+                           'iterable before its next clause got identifier %r' % (nv + 1, nv + 2, got))
+
+
+def _failing_batch(F, nv):
+    """add_clauses_from over an iterable that fails after two clauses, and the
+    caller goes on: whatever part of the batch stayed in the formula, the
+    formula owns the variables it mentions (either both clauses stayed and
+    nv+2 are declared, or none did)."""
+    m0 = len(F)
+
+    def gen():
+        yield [nv + 1]
+        yield [-(nv + 2), nv + 1]
+        raise KeyError('the iterable of the caller fails')
+    try:
+        F.add_clauses_from(gen())
+    except KeyError:
+        pass
+    kept = len(F) - m0
+    n1 = F.number_of_variables()
+    if (kept, n1) not in ((2, nv + 2), (0, nv)):
+        raise BatchProblem('after a batch that failed behind its second clause the formula kept %d of its '
+                           'clauses (mentioning %d and %d) and declares %d variables (before: %d)'
+                           % (kept, nv + 1, nv + 2, n1, nv))
+
+
+def _zero_coefficient(F, nv):
+    if formula_kind(F) == 'CNF':
+        F.add_clauses_from([[nv + 2, -(nv + 1)]])
+    else:
+        F.add_constraint([(0, nv + 2), (1, nv + 1), '>=', 1])
+
+
+# name -> (action(F, nv), declared count afterwards(nv) [None: whatever the
+# action accepted], needs)
+CLAUSE_OP_GROUPS = {
+    # groups created by a clause operation: (name, first id(nv), size)
+    'add_clauses_from(lazy: clause, new_variable, clause)': lambda nv: (('new_variable', nv + 3, 1),),
+}
 CLAUSE_OPS = {
+    'add_clauses_from(lazy: clause, new_variable, clause)': (_lazy_batch, lambda nv: nv + 3, None),
+    'add_clauses_from(iterable failing after 2 clauses)': (_failing_batch, None, None),
+    'zero_coefficient_term(nv+2)': (_zero_coefficient, lambda nv: nv + 2, None),
     'add_clause([nv+1])': (lambda F, nv: F.add_clause([nv + 1]), lambda nv: nv + 1, None),
     'add_clause([1,-nv],check=False)': (lambda F, nv: F.add_clause([1, -nv], check=False),
                                         lambda nv: nv, 'nv>=1'),
@@ -1401,7 +1464,8 @@ ALPHABETS['full'] = ALPHABETS['core'] + [
     'new_block(2)', 'new_block(2,1,2)', 'new_combinations(3,2)', 'new_mapping(2,2)',
     'new_graph_edges(G)', 'add_clause([-(nv+2),..])', 'add_parity([nv+1,-(nv+2)],1)',
     'cardinality_eq([nv+2,nv+1,..],1)', 'linear_fresh(nv+1,nv+3)', 'add_clause([])',
-    'cardinality_geq(generator(nv+1,-(nv+2)),1)', 'cardinality_eq(range(nv+1,nv+3),1)']
+    'cardinality_geq(generator(nv+1,-(nv+2)),1)', 'cardinality_eq(range(nv+1,nv+3),1)',
+    'add_clauses_from(lazy: clause, new_variable, clause)', 'zero_coefficient_term(nv+2)']
 ALPHABETS['ext'] = ALPHABETS['full'] + [
     'new_variable(label)', 'new_block(3,0,2)', 'new_combinations_with_replacement(2,2)',
     'new_permutations(3,2)', 'new_words(2,2)', 'new_mapping(0,3)', 'new_binary_mapping(3,1)',
@@ -1412,7 +1476,8 @@ ALPHABETS['ext'] = ALPHABETS['full'] + [
     'add_clause((nv+1,-(nv+2)))', 'add_parity((nv+1,),0)',
     'new_sparse_mapping(U)', 'new_bipartite_edges(U)',
     'cardinality_neq([nv+1,nv+2],5)', 'cardinality_neq([nv+1],-1)', 'cardinality_geq([nv+1,-(nv+2)],0)',
-    'cardinality_leq([nv+2],3)', 'cardinality_eq([nv+1,nv+2],7)']
+    'cardinality_leq([nv+2],3)', 'cardinality_eq([nv+1,nv+2],7)',
+    'add_clauses_from(iterable failing after 2 clauses)']
 
 
 class St:
@@ -1501,7 +1566,9 @@ def bfs_apply(st, name):
         else:
             fun, after, _ = CLAUSE_OPS[name]
             fun(F, nv)
-            st.nv = after(nv)
+            st.nv = after(nv) if after is not None else F.number_of_variables()
+            if name in CLAUSE_OP_GROUPS:
+                st.glog = st.glog + CLAUSE_OP_GROUPS[name](nv)
     except Exception as e:          # every operation of the alphabet is documented usage
         problems.append(('exception:' + type(e).__name__, '%s at declared count %d raised %r' % (name, nv, e)))
         return bfs.Step(st, problems, 'op:%s:exception' % name)
@@ -1727,7 +1794,9 @@ def run_controls(args, R):
         F = fc(); F.update_variable_number(2); F.add_clause([1, -2]); bad.append(('nvars', F, 3))
         if cls == 'OPB':
             F = fc(); F.update_variable_number(2)
-            F.add_constraint([(0, 1), (1, 2), '>=', 1], check=False); bad.append(('coefficient', F, 2))
+            F.add_constraint([(1, 1), (1, 2), '>=', 1], check=False)
+            F._constraints[-1] = [(-1, 1), (1, 2), '>=', 1]        # planted: not the normal form
+            bad.append(('coefficient', F, 2))
         for want, F, n in bad:
             got = [s for s, _ in oracle(F, n)]
             if want in got:
